@@ -51,4 +51,28 @@ CLAIMED.update({
             "note": "Uninterpreted callees are assumed equivariant and are each checked where analysed. PSI is not claimed (not invariant by definition)."},
 })
 
+CLAIMED.update({
+    "C05": {"technique": "static: series model with symbolic fit objects; log-domain identities; call-record provenance",
+            "text": "For the three non-ideal generators every path (input basis x permeate mode x programme x initial permeances x one/many curves x "
+                    "curve temperature equal/different) is normalised with the fitted functions symbolic; the per-step permeance law, the constant "
+                    "facilitation factor fixed by step 0, factor 1 without initial permeances, the provenance of each returned fit and the "
+                    "single-curve Arrhenius re-scaling are decided as identities.",
+            "note": "find_best_fit is uninterpreted (its selection logic is C16); fitted functions assumed positive; NOT decided: what the optimiser returns."},
+    "C08": {"technique": "static: CPython-exact argument binding on call records; must-forward over the call graph; normal-form identities",
+            "text": "Every call site on the configuration path is bound as CPython binds it under all permeate modes and input bases; the callee's "
+                    "activity model, precision and permeate parameters must be the caller's own values and never defaults; bound values must fit "
+                    "annotations; derived compositions / separation factors equal their definitions; each step's flux call receives the step-k "
+                    "elements of the returned series.",
+            "note": "Equality of fluxes across entry points follows from equal bindings of one pure solver (purity is C20). Known finding: DiffusionCurve cannot carry the model."},
+    "C09": {"technique": "static: forward/inverse sibling comparison on normal forms; exhaustive mode and unit enumeration",
+            "text": "The curve inversion and the solver's driving force are normalised over a common naming of the curve fields and compared per "
+                    "permeate mode, including the basis of the permeate composition; flux construction, exposed units (3x3) and dispatch totality likewise.",
+            "note": "Stated at the self-consistent permeate composition (C02 bounds the deviation by the precision). Known finding: pressure-mode basis mismatch."},
+    "C12": {"technique": "static: exhaustive arm enumeration + normal-form comparison with the property's formula",
+            "text": "All arms of get_permeance (Ea stated/not x initial permeance given/not x stored unit x T equal/different), the regression's "
+                    "structure, the molar/mass selectivity relation and the pure-component flux in four permeate cells are compared with the "
+                    "property's formulas over the experiments' fields as atoms.",
+            "note": "NOT decided: numeric recovery of Ea by lstsq (library numerics); exact ties between nearest experiments are excluded by the property."},
+})
+
 NOT_APPLICABLE = {}
